@@ -122,6 +122,11 @@ class Ctx:
         e.update(env or {})
         p = subprocess.run([exe] + args, input=stdin, stdout=subprocess.PIPE, stderr=subprocess.PIPE,
                            text=True, timeout=timeout, env=e)
+        if p.returncode != 0 and check and crashed_in_repo(p.stderr):
+            # the process died inside the code under test (a panic in one of ITS goroutines cannot be recovered
+            # by the harness): that is behaviour of the real code, not an infrastructure failure
+            self.failure('crash:' + args[0], 'the driver process died inside goatcore: ' + p.stderr[:1800], dict(cmd=args, stderr=p.stderr[:8000]))
+            return dict(_rc=p.returncode, _stderr=p.stderr[-4000:], _crashed=True, executed=0, failures_by_key={}, examples={}, samples=[])
         if p.returncode != 0 and check:
             raise Infra('harness %s failed rc=%d\nstdout: %s\nstderr: %s' % (args, p.returncode, p.stdout[-2000:], p.stderr[-4000:]))
         lines = [l for l in p.stdout.splitlines() if l.strip()]
@@ -187,6 +192,22 @@ class Ctx:
             self.pid, self.tier, cov['states'], cov['transitions'], cov['traces_validated_against_impl'],
             cov['evaluations'], time.time() - self.t0))
         return 0
+
+
+def crashed_in_repo(stderr):
+    """True if a Go panic / fatal error trace has its first non-runtime frame inside the repository's code."""
+    if 'panic:' not in stderr and 'fatal error:' not in stderr:
+        return False
+    m = re.search(r'goroutine \d+ \[running\]:\n(.*?)(\n\n|\Z)', stderr, re.S)
+    if not m:
+        return False
+    for line in m.group(1).splitlines():
+        line = line.strip()
+        if not line or line.startswith('/') or line.startswith('runtime') or line.startswith('panic(') or line.startswith('sync.') \
+                or line.startswith('created by') or line.startswith('internal/'):
+            continue
+        return line.startswith('github.com/goatcms/goatcore')
+    return False
 
 
 _known_cache = None
@@ -282,6 +303,9 @@ def run_sharded(ctx, argv_for_shard, shard_paths, timeout=3000):
         except subprocess.TimeoutExpired:
             pr.kill()
             raise Infra('harness shard timed out')
+        if pr.returncode != 0 and crashed_in_repo(err):
+            ctx.failure('crash:' + argv_for_shard('')[0], 'a driver process died inside goatcore: ' + err[:1800], dict(stderr=err[:8000]))
+            continue
         if pr.returncode != 0:
             raise Infra('harness shard failed rc=%d: %s' % (pr.returncode, err[-3000:]))
         lines = [l for l in out.splitlines() if l.strip()]
